@@ -28,12 +28,14 @@ pub enum Recipe {
     Full,
     /// growth_left == 0 because of tombstones, len <= capacity/2: the next insert rehashes in place
     Saturated,
+    /// saturated through random removals and refills (displaced elements, interleaved tombstones)
+    SaturatedRandom,
     /// contiguous run with holes: tombstones present, room left
     Tombstoned,
     /// a seeded random history
     History,
 }
-pub const RECIPES: [Recipe; 6] = [Recipe::Fresh, Recipe::Small, Recipe::Full, Recipe::Saturated, Recipe::Tombstoned, Recipe::History];
+pub const RECIPES: [Recipe; 7] = [Recipe::Fresh, Recipe::Small, Recipe::Full, Recipe::Saturated, Recipe::SaturatedRandom, Recipe::Tombstoned, Recipe::History];
 
 #[derive(Clone, Debug)]
 pub struct StateSpec {
@@ -98,6 +100,40 @@ pub fn build_state<K: Elem, V: Elem>(s: &StateSpec, c: &mut Ctx) -> MapDrv<K, V>
                     break;
                 }
                 del(&mut d, *id);
+            }
+        }
+        Recipe::SaturatedRandom => {
+            let n = [28u32, 56, 14, 112][(s.size % 4) as usize].min(universe - 1);
+            d.map = Map::with_capacity_and_hasher_in(n as usize, bh, CkAlloc);
+            let cap = d.map.capacity() as u32;
+            let mut next = 0u32;
+            while (d.map.len() as u32) < cap && next + 1 < universe {
+                put(&mut d, next, &mut rng);
+                next += 1;
+            }
+            for _round in 0..6 {
+                let keep = (cap / 2).saturating_sub(1 + s.size % 3).max(1);
+                while d.model.len() as u32 > keep {
+                    let i = rng.usize_below(d.model.len());
+                    let id = d.model.e[i].id;
+                    del(&mut d, id);
+                }
+                let mut guard = 0;
+                while d.map.verif_dump().growth_left > 0 && (d.model.len() as u32) < keep && next + 1 < universe && guard < 4 * cap {
+                    put(&mut d, next, &mut rng);
+                    next += 1;
+                    guard += 1;
+                }
+                let dump = d.map.verif_dump();
+                if dump.growth_left == 0 && (d.map.len() as u32) <= cap / 2 {
+                    break;
+                }
+                let mut guard = 0;
+                while d.map.verif_dump().growth_left > 0 && next + 1 < universe && guard < 4 * cap {
+                    put(&mut d, next, &mut rng);
+                    next += 1;
+                    guard += 1;
+                }
             }
         }
         Recipe::Tombstoned => {
@@ -488,7 +524,7 @@ pub fn scenario<K: Elem, V: Elem>(c: &mut Ctx, idx: u64, rng: &mut Rng) {
     let recipe = RECIPES[((crate::util::mix(idx) / C04_PAIRS.len() as u64) % RECIPES.len() as u64) as usize];
     // saturation needs clustered hashes to leave tombstones
     let plan = match recipe {
-        Recipe::Saturated | Recipe::Tombstoned if rng.chance(3, 4) => *rng.pick(&[Plan::Ident, Plan::IdentOneTag, Plan::Zero, Plan::SamePos, Plan::Palette(1, 3), Plan::Tail]),
+        Recipe::Saturated | Recipe::SaturatedRandom | Recipe::Tombstoned if rng.chance(3, 4) => *rng.pick(&[Plan::Ident, Plan::IdentOneTag, Plan::Zero, Plan::SamePos, Plan::Palette(1, 3), Plan::Palette(3, 1), Plan::Palette(4, 4), Plan::Stride, Plan::Tail]),
         _ => pick_plan(rng),
     };
     let spec = StateSpec { plan, salt: rng.next(), recipe, seed: rng.next(), size: rng.below(1000) as u32 };
